@@ -282,23 +282,31 @@ func newSvcDiscoveryClient(scope string, streamMaker svcDiscoveryStreamMaker) *s
 
 func (c *svcDiscoveryClient) Subscribe(svcName string) {
 	c.Lock()
-	defer c.Unlock()
 	_, ok := c.subscribed[svcName]
 	if ok {
+		c.Unlock()
 		return
 	}
 	c.subscribed[svcName] = struct{}{}
+	c.Unlock()
+
+	// NOTE: The queue is only drained while a stream is up. Must not wait
+	// for room in it with the lock held, resubscribing on a new stream needs
+	// the lock and is what makes room again.
 	c.subCh <- svcName
 }
 
 func (c *svcDiscoveryClient) Unsubscribe(svcName string) {
 	c.Lock()
-	defer c.Unlock()
 	_, ok := c.subscribed[svcName]
 	if !ok {
+		c.Unlock()
 		return
 	}
 	delete(c.subscribed, svcName)
+	c.Unlock()
+
+	// see Subscribe
 	c.unsubCh <- svcName
 }
 
